@@ -43,7 +43,7 @@ ASSUMPTIONS = ['zones U1-U4, U10, U11 are unconstrained (see DESIGN.md 1.1)',
                'permission-based unreadability is C06']
 
 CLASSES = (gmutate.FS_CLASSES * 3 + gmutate.MAN_CLASSES * 2 + gmutate.ODD_CLASSES
-           + ['rmdir-ignore-first'] * 3)
+           + ['rmdir-ignore-first'] * 3 + ['m-ignore-missing-parent'] * 2)
 N = {'quick': 3000, 'thorough': 150000}
 PER_UNIT = 25
 
